@@ -16,5 +16,7 @@ Next ==
   /\ ~done /\ done' = TRUE /\ tid' = tid
   /\ LET t == Tr[tid]
          c == Clause(t)
-     IN PrintT(<<"VERDICT", t.id, c = "", c, 1, "">>)
+         kf == IF c # "" /\ ~t.raised /\ KF_IdsNotPermuted(t.srcs, t.rank, t.rows, t.labels, t.constc, t.offc, t.trendc)
+               THEN "KF_IdsNotPermuted" ELSE ""
+     IN PrintT(<<"VERDICT", t.id, c = "", c, 1, kf>>)
 =============================================================================
